@@ -262,13 +262,25 @@ func init() {
 func TestC05(t *testing.T) {
 	rig.Main(t, "C05", "complete enumeration of all 2^24 bus and all 2^24 pak addresses for each of the 4 mappers against: the error/window "+
 		"contract, the console-owned regions common to all mappers, the 8 KiB page structure (table-free) and a per-mapper region table "+
-		"transcribed as data from the documented layout.  Distinct = (mapper, direction, address); non-trivial = translated, or within 2 bytes of "+
+		"transcribed as data from the documented layout; a second process repeats the enumeration with the mappers and the two directions in reverse order, before the committed regression cases are replayed.  Distinct = (mapper, direction, address); non-trivial = translated, or within 2 bytes of "+
 		"an 8 KiB page edge of an untranslated page that borders a translated one.",
 		func(r *rig.Run) {
 			ev := r.Ev
 			ev.Exhaustive = true
-			for _, m := range mappers {
-				for _, dir := range []string{"bus", "pak"} {
+			// the second shard (a process of its own) makes the same sweep with the mappers and the two directions in reverse
+			// order: a translation must not depend on which mapper or direction was used first in the process; its sweep is
+			// not counted a second time in the evidence
+			order, dirs := mappers, []string{"bus", "pak"}
+			recount := rig.Shard()%2 == 1
+			if recount {
+				order = nil
+				for i := len(mappers) - 1; i >= 0; i-- {
+					order = append(order, mappers[i])
+				}
+				dirs = []string{"pak", "bus"}
+			}
+			for _, m := range order {
+				for _, dir := range dirs {
 					var mf rig.MinFail
 					var nontriv, mappedN int64
 					m, dir := m, dir
@@ -318,6 +330,10 @@ func TestC05(t *testing.T) {
 						_, err, d := mf.Get()
 						r.Violation(m.name+"-"+dir, d, err)
 					}
+					if recount {
+						ev.ClassN("swept-again-with-mappers-and-directions-in-reverse-order(not-counted-as-cases)", 1<<24)
+						continue
+					}
 					ev.Bulk(1<<24, nontriv)
 					ev.ClassN(m.name+"/"+dir+"/translated", mappedN)
 					ev.ClassN(m.name+"/"+dir+"/hole-edges", nontriv-mappedN)
@@ -355,7 +371,9 @@ func TestC05(t *testing.T) {
 				for x := uint32(1<<24 - 1); x >= 0x3FB && ok; x -= 0x3FB {
 					ok = walk(x)
 				}
-				ev.Bulk(mixed, mixed)
+				if !recount {
+					ev.Bulk(mixed, mixed)
+				}
 				ev.ClassN(m.name+"/calls-right-after-a-call-of-the-opposite-direction-into-the-same-page", mixed)
 			}
 			r.Rapid("rapid", rig.Pick(20000, 200000), func(t *rapid.T) {
